@@ -106,6 +106,16 @@ def c17_objects(tier, seed, mult):
                                  "what": f"after set_merge({name!r}, tolerance={give_tol}) on an estimator holding a {kind} object: "
                                          f"{describe(e1._merge_accept_fn)} vs constructor {describe(e2._merge_accept_fn)}", "case": case})
             break
+        # set_merge(tolerance=x) alone changes the tolerance and nothing else of the object the estimator holds
+        e4 = _bb.BitBirch(merge_criterion=obj if kind != "subclass" else Greedy(tol), threshold=thr)
+        before4 = describe(e4._merge_accept_fn)
+        e4.set_merge(tolerance=0.27)
+        after4 = describe(e4._merge_accept_fn)
+        res.evaluations += 1
+        if after4 != (before4[0], 0.27) + before4[2:]:
+            res.failures.append({"signature": "C17:set_merge-tolerance-only-changed-more-than-the-tolerance",
+                                 "what": f"{before4} -> {after4}", "case": case})
+            break
         # a chosen tolerance survives set_merge calls that do not name one, whatever carries it in between
         path = [rng.choice(["tolerance-diameter", "tolerance-radius", "tolerance-legacy"])]
         path += rng.sample(["never-merge", "tolerance-radius", "tolerance-legacy", "tolerance-diameter", "obj"], rng.randint(1, 3))
